@@ -83,7 +83,7 @@ theorem postsolve_last_writer (holds : Ctl → Bool) (cs : List Ctl) (ls : Links
 
 /-- two conflicting triggered controls: the one of higher priority wins whatever the registration order -/
 example :
-    fieldAt (postsolve (fun _ => true) [⟨0, 5, ⟨0, .user, 0⟩⟩, ⟨1, 3, ⟨0, .user, 1⟩⟩] [⟨.pipe, 1, 2, 0⟩]) 0 .user = some 0 := by
+    fieldAt (postsolve (fun _ => true) [⟨0, 5, ⟨0, .user, 0⟩⟩, ⟨1, 3, ⟨0, .user, 1⟩⟩] [⟨.pipe, 1, 2, 0, 1⟩]) 0 .user = some 0 := by
   decide +kernel
 
 theorem observe_of_fieldAt (ls : Links) (i : Nat) (l : Link) (h : ls[i]? = some l) :
@@ -99,6 +99,86 @@ theorem postsolve_fixpoint (tracked : List (Nat × Watch)) (holds : Ctl → Bool
   rw [List.any_eq_false] at hno
   have := hno w hw
   simpa using this
+
+/-! ### companions of setting / speed controls -/
+
+/-- every companion `_get_valve_controls` builds has the PRIORITY of the setting control it accompanies and commands
+`status := Active` on the same valve -/
+theorem valve_companion_spec (idBase : Nat) (us : List UCtl) (c : Ctl) (hc : c ∈ companionsOf (valveCompanion idBase) us) :
+    ∃ u ∈ us, u.attr = .setting ∧ u.kind = .valve ∧ c.prio = u.prio ∧ c.act = ⟨u.link, .user, 2⟩ := by
+  unfold companionsOf at hc
+  obtain ⟨u, hu, h⟩ := List.mem_filterMap.mp hc
+  refine ⟨u, hu, ?_⟩
+  unfold valveCompanion at h
+  cases ha : u.attr with
+  | status => simp [ha] at h
+  | baseSpeed => simp [ha] at h
+  | setting =>
+    simp only [ha] at h
+    by_cases hk : (u.kind == Kind.valve) = true
+    · simp only [hk, if_true, Option.getD_some, Option.some.injEq] at h
+      refine ⟨rfl, by simpa using hk, ?_, ?_⟩ <;> rw [← h]
+    · simp [hk] at h
+
+/-- ... and every companion `_get_pump_controls` builds has the priority of the `base_speed` control and commands `status := Open` -/
+theorem pump_companion_spec (idBase : Nat) (us : List UCtl) (c : Ctl) (hc : c ∈ companionsOf (pumpCompanion idBase) us) :
+    ∃ u ∈ us, u.attr = .baseSpeed ∧ u.kind = .pump ∧ c.prio = u.prio ∧ c.act = ⟨u.link, .user, 1⟩ := by
+  unfold companionsOf at hc
+  obtain ⟨u, hu, h⟩ := List.mem_filterMap.mp hc
+  refine ⟨u, hu, ?_⟩
+  unfold pumpCompanion at h
+  cases ha : u.attr with
+  | status => simp [ha] at h
+  | setting => simp [ha] at h
+  | baseSpeed =>
+    simp only [ha] at h
+    by_cases hk : (u.kind == Kind.pump) = true
+    · simp only [hk, if_true, Option.getD_some, Option.some.injEq] at h
+      refine ⟨rfl, by simpa using hk, ?_, ?_⟩ <;> rw [← h]
+    · simp [hk] at h
+
+/-- `explicit_status_beats_lower_priority_companion`: over the list the simulator really runs (user controls, tank / CV / pump /
+valve internal controls AND the companions), a triggered user STATUS control `v` keeps its commanded `_user_status` unless a
+triggered control of priority ≥ `v`'s writes `_user_status` of that link otherwise — and such an overrider is never the companion
+of a setting / speed control of LOWER priority than `v` (the internal controls write `_internal_status`, hypothesis `hint`). -/
+theorem explicit_status_beats_lower_priority_companion (idBase : Nat) (us : List UCtl) (tankC cvC pumpC valveC : List Ctl)
+    (holds : Ctl → Bool) (ls : Links) (v : UCtl) (hv : v ∈ us) (hattr : v.attr = .status) (hh : holds v.ctl = true)
+    (hi : v.link < ls.length)
+    (hint : ∀ c ∈ tankC ++ cvC ++ pumpC ++ valveC, c.act.field = .internal) :
+    fieldAt (postsolve holds (simulatorControls idBase us tankC cvC pumpC valveC) ls) v.link .user = some v.value
+    ∨ ∃ d ∈ simulatorControls idBase us tankC cvC pumpC valveC, holds d = true ∧ v.prio ≤ d.prio ∧ d.act.link = v.link
+        ∧ d.act.field = .user ∧ d.act.value ≠ v.value
+        ∧ (d ∈ us.map (·.ctl) ∨ ∃ u ∈ us, u.prio = d.prio ∧ v.prio ≤ u.prio ∧ (u.attr = .setting ∨ u.attr = .baseSpeed)) := by
+  have hmem : v.ctl ∈ simulatorControls idBase us tankC cvC pumpC valveC := by
+    unfold simulatorControls
+    simp only [List.mem_append]
+    exact Or.inl (Or.inl (Or.inl (Or.inl (Or.inl (Or.inl (List.mem_map.mpr ⟨v, hv, rfl⟩))))))
+  have hf : v.ctl.act.field = .user := by simp [UCtl.ctl, hattr]
+  rcases postsolve_last_writer holds _ ls v.ctl hmem hh (by simpa [UCtl.ctl] using hi) with h | ⟨d, hd, h1, h2, h3, h4, h5, _⟩
+  · left; simpa [UCtl.ctl, hattr] using h
+  · right
+    have h4' : d.act.field = .user := by rw [h4, hf]
+    refine ⟨d, hd, h1, by simpa [UCtl.ctl] using h2, by simpa [UCtl.ctl] using h3, h4', by simpa [UCtl.ctl] using h5, ?_⟩
+    unfold simulatorControls at hd
+    simp only [List.mem_append] at hd
+    have hnotint : ∀ l : List Ctl, (∀ c ∈ l, c.act.field = .internal) → d ∉ l := by
+      intro l hl hdl; have := hl d hdl; rw [h4'] at this; cases this
+    rcases hd with (((((hd | hd) | hd) | hd) | hd) | hd) | hd
+    · exact Or.inl hd
+    · exact absurd hd (hnotint _ (fun c hc => hint c (by simp [hc])))
+    · exact absurd hd (hnotint _ (fun c hc => hint c (by simp [hc])))
+    · obtain ⟨u, hu, ha, _, hp, _⟩ := pump_companion_spec _ us d hd
+      exact Or.inr ⟨u, hu, hp.symm, by rw [← hp]; simpa [UCtl.ctl] using h2, Or.inr ha⟩
+    · exact absurd hd (hnotint _ (fun c hc => hint c (by simp [hc])))
+    · obtain ⟨u, hu, ha, _, hp, _⟩ := valve_companion_spec _ us d hd
+      exact Or.inr ⟨u, hu, hp.symm, by rw [← hp]; simpa [UCtl.ctl] using h2, Or.inl ha⟩
+    · exact absurd hd (hnotint _ (fun c hc => hint c (by simp [hc])))
+
+/-- demo of seeded/C05-4: setting control of priority low (1) and CLOSED control of priority medium (3) on valve 0, both
+triggered: the valve's `_user_status` is Closed after the pass -/
+example : fieldAt (postsolve (fun _ => true)
+    (simulatorControls 100 [⟨0, 1, 0, .valve, .setting, 50⟩, ⟨1, 3, 0, .valve, .status, 0⟩] [] [] [] []) [⟨.valve, 2, 2, 20, 1⟩]) 0 .user
+    = some 0 := by decide +kernel
 
 /-! ### the status property -/
 
@@ -184,7 +264,7 @@ theorem reported_consistent (tracked : List (Nat × Watch)) (holds : Ctl → Boo
       · right; exact ⟨l', hl', h1, h2⟩
   · right; exact ⟨d, hd, h1, h2, h3, h4, h5⟩
 
-example : changed [(0, .status)] [⟨.pipe, 0, 2, 0⟩] (postsolve (fun _ => true) [⟨0, 3, ⟨0, .user, 0⟩⟩] [⟨.pipe, 0, 2, 0⟩]) = false := by
+example : changed [(0, .status)] [⟨.pipe, 0, 2, 0, 1⟩] (postsolve (fun _ => true) [⟨0, 3, ⟨0, .user, 0⟩⟩] [⟨.pipe, 0, 2, 0, 1⟩]) = false := by
   decide +kernel
 
 /-! ### the presolve pass and the partial step -/
